@@ -192,8 +192,10 @@ def values_equal(it, a, b):
         if _both_concrete(a, b):
             return int(a) == int(b)
         return int_term(a) == int_term(b)
-    if smt.is_bool_term(a) and smt.is_bool_term(b):
-        return a == b
+    if (smt.is_bool_term(a) or isinstance(a, bool)) and (smt.is_bool_term(b) or isinstance(b, bool)):
+        ta = z3.BoolVal(a) if isinstance(a, bool) else a
+        tb = z3.BoolVal(b) if isinstance(b, bool) else b
+        return z3.simplify(ta == tb)
     if is_byteslike(a) and is_byteslike(b):
         if _both_concrete(a, b):
             return a == b
